@@ -25,6 +25,7 @@ package btree
 //@   assumed
 //@   ensures result != nil && !old(allocated(result)) && allocated(result) && btlen[result] == 0
 //@   ensures forall x :: {bthas[result][x]} !bthas[result][x]
+//@   ensures forall u *BTree :: {btlen[u]} u != result ==> btlen[u] == old(btlen[u])
 //@   modifies ghost btlen
 
 // ReplaceOrInsert: an element with the same key is replaced (and returned), otherwise the item is added.
